@@ -7,7 +7,7 @@ Line-protocol handlers for property C08 (the evaluator model over IEEE doubles):
 * `c08.eval <expr>`   → `(<value> <sideEffects> <sideEffects with pure metamethods> <multi>)`
                         value ::= nil | true | false | (num f<bits>) | (str x<hex>) | table | function | unknown
 * `c08.h <expr>`      → `(<h8> <tag>*)` — is the expression inside the proved region; the tags name the
-                        failing conditions (`numfmt` F3, `refeq`)
+                        failing conditions (`refeq`)
 * `c08.coerce x<hex>` → `(num f<bits>)` | `none` — `LuaValue::String(bytes).number_coercion()`
 * `c08.fmt f<bits>`   → `x<hex>` — `f64::to_string`
 * `c08.semnum f<bits>`→ `x<hex>` — the reference semantics' `tostring` of a number (diagnostics)
@@ -34,7 +34,6 @@ partial def why (e : Expr) : List String :=
       (match op with
        | .eq | .ne =>
          (if refEqOK E l r then [] else ["refeq"])
-       | .concat => if concatOK E (evaluate E l) (evaluate E r) then [] else ["numfmt"]
        | _ => [])
   | .un _ e => why e
   | .paren e => why e
